@@ -29,7 +29,8 @@ def hook(I, v, name, *args):
         m = I.find_method(v, '_np_' + name)
         if m is not None:
             return I.call(m, list(args), {})
-        raise Unsupported(f'numpy.{name} on {v.cls.name}')
+        # numpy ufuncs refuse arbitrary Python objects
+        I.throw('TypeError', f"ufunc '{name}' not supported for the input types ({v.cls.name})")
     return MISSING
 
 
@@ -330,7 +331,21 @@ def _isfinite(I, x):
     return math.isfinite(x)
 
 
+def _isfinite_elem(I, e):
+    """element of a symbolic float array: its finiteness is not known (image pixels may be NaN/inf) - an uninterpreted predicate
+    finite_<array>(indices); arithmetic on the element stays real-valued, so only control flow and frame conditions depend on
+    this. Scalar symbolic reals stay finite (A-REAL)"""
+    if isinstance(e, Sym) and e.kind == 'real' and z3.is_app(e.e) and e.e.decl().kind() == z3.Z3_OP_UNINTERPRETED and e.e.num_args() > 0 \
+            and all(a.sort().kind() == z3.Z3_INT_SORT for a in e.e.children()):
+        d = e.e.decl()
+        f = z3.Function('finite_' + d.name(), *([z3.IntSort()] * d.arity()), z3.BoolSort())
+        return mk(f(*e.e.children()), 'bool')
+    return _isfinite(I, e)
+
+
 def np_isfinite(I, x):
+    if isinstance(x, Arr) and x.dtype in ('float', None):
+        return _B().arr_map(I, lambda e: _isfinite_elem(I, e), x, dtype='bool')
     return lift1('isfinite', _isfinite, 'bool')(I, x)
 
 
@@ -572,20 +587,28 @@ def reduce_minmax(I, a, ismin):
     return m
 
 
+def _inrange(w, n):
+    if isinstance(n, tuple):
+        return z3.And(*[z3.And(zint(a) >= 0, zint(a) < zint(b)) for a, b in zip(w, n)]) if n else z3.BoolVal(True)
+    return z3.And(zint(w) >= 0, zint(w) < zint(n))
+
+
 def add_univ(I, n, f):
-    """a universally quantified fact over indices 0 <= j < n: kept for instantiation at clause skolems, and instantiated
-    at once on every witness index known so far"""
+    """a universally quantified fact over indices 0 <= j < n (n a tuple of extents: over index tuples): kept for instantiation
+    at clause skolems, and instantiated at once on every witness index of the same arity known so far"""
     g = I.ctx.ghost
     g.setdefault('univ', []).append((n, f))
     for (wn, w) in g.get('witness', []):
-        I.ctx.fact(z3.Implies(z3.And(zint(w) >= 0, zint(w) < zint(n)), f(w)))
+        if isinstance(w, tuple) == isinstance(n, tuple) and (not isinstance(n, tuple) or len(w) == len(n)):
+            I.ctx.fact(z3.Implies(_inrange(w, n), f(w)))
 
 
 def add_witness(I, n, w):
     g = I.ctx.ghost
     g.setdefault('witness', []).append((n, w))
     for (un, f) in g.get('univ', []):
-        I.ctx.fact(z3.Implies(z3.And(zint(w) >= 0, zint(w) < zint(un)), f(w)))
+        if isinstance(w, tuple) == isinstance(un, tuple) and (not isinstance(un, tuple) or len(w) == len(un)):
+            I.ctx.fact(z3.Implies(_inrange(w, un), f(w)))
 
 
 def arr_getattr(I, a, name):
@@ -684,12 +707,20 @@ def np_any(I, x, **kw):
         if items is None:
             # any over a symbolic-size array: opaque boolean with the instance axiom
             r = I.ctx.fresh('any', 'bool')
-            n = x.shape[0] if len(x.shape) == 1 else None
-            if n is None:
-                raise Unsupported('np.any over symbolic N-D array')
-            I.ctx.ghost.setdefault('univ', []).append((n, lambda j: z3.Implies(zbool(x.fn((j,))), r.e)))
-            k = I.ctx.fresh('anyw', 'int')
-            I.ctx.fact(z3.Implies(r.e, z3.And(k.e >= 0, k.e < zint(n), zbool(x.fn((k,))))))
+            if not isinstance(x.shape, tuple):
+                raise Unsupported('np.any over an array of unknown rank')
+            if len(x.shape) == 1:
+                n = x.shape[0]
+                add_univ(I, n, lambda j: z3.Implies(zbool(x.fn((j,))), r.e))
+                k = I.ctx.fresh('anyw', 'int')
+                I.ctx.fact(z3.Implies(r.e, z3.And(k.e >= 0, k.e < zint(n), zbool(x.fn((k,))))))
+                add_witness(I, n, k)
+            else:
+                dims = tuple(x.shape)
+                add_univ(I, dims, lambda idx: z3.Implies(zbool(x.fn(tuple(idx))), r.e))
+                ks = tuple(I.ctx.fresh('anyw', 'int') for _ in dims)
+                I.ctx.fact(z3.Implies(r.e, z3.And(_inrange(ks, dims), zbool(x.fn(ks)))))
+                add_witness(I, dims, ks)
             return r
         return Bm.b_any(I, VList(items))
     if isinstance(x, (VList, tuple)):
@@ -901,6 +932,59 @@ def np_arange(I, n, *rest):
     return Arr((n,), lambda idx: idx[0], 'int')
 
 
+class _Grid:
+    """numpy.mgrid / numpy.ogrid with integer unit-step slices: index arrays  g_d[i_0, ..., i_k] = start_d + i_d"""
+
+    def __init__(self, dense):
+        self.dense = dense
+
+    def host_getitem(self, I, k):
+        Bm = _B()
+        single = not isinstance(k, tuple)
+        ks = (k,) if single else k
+        starts, lens = [], []
+        for kk in ks:
+            if not isinstance(kk, VSlice) or kk.step not in (None, 1):
+                raise Unsupported('mgrid/ogrid with a non-unit step')
+            st = 0 if kk.start is None else kk.start
+            if kk.stop is None:
+                I.throw('TypeError', "unsupported operand type(s) for -: 'NoneType' and 'int'")
+            for v in (st, kk.stop):
+                if not (isinstance(v, int) or (isinstance(v, Sym) and v.kind == 'int')):
+                    raise Unsupported('mgrid/ogrid with non-integer bounds')
+            n = Bm.num_binop(I, '-', kk.stop, st)
+            ln = Bm.ite(I, I.compare('>', n, 0), n, 0) if isinstance(n, Sym) else max(n, 0)
+            starts.append(st)
+            lens.append(ln)
+        nd = len(ks)
+        outs = []
+        for d in range(nd):
+            if self.dense:
+                shape = tuple(lens)
+                fn = (lambda d: lambda idx: Bm.num_binop(I, '+', starts[d], idx[d]))(d)
+            else:
+                shape = tuple(lens[e] if e == d else 1 for e in range(nd))
+                fn = (lambda d: lambda idx: Bm.num_binop(I, '+', starts[d], idx[d]))(d)
+            outs.append(Arr(shape, fn, 'int'))
+        if single:
+            return outs[0]
+        if self.dense:
+            return np_array(I, VList(outs))
+        return tuple(outs)
+
+
+def np_meshgrid(I, *xs, indexing='xy', **kw):
+    arrs = [x if isinstance(x, Arr) else np_array(I, x) for x in xs]
+    if len(arrs) != 2 or any(len(a.shape) != 1 for a in arrs) or kw:
+        raise Unsupported('meshgrid form')
+    ax, ay = arrs
+    if indexing == 'xy':
+        shape = (ay.shape[0], ax.shape[0])
+        return VList([Arr(shape, lambda idx: ax.fn((idx[1],)), ax.dtype), Arr(shape, lambda idx: ay.fn((idx[0],)), ay.dtype)])
+    shape = (ax.shape[0], ay.shape[0])
+    return VList([Arr(shape, lambda idx: ax.fn((idx[0],)), ax.dtype), Arr(shape, lambda idx: ay.fn((idx[1],)), ay.dtype)])
+
+
 def np_vstack(I, seq):
     items = I.iterate(seq)
     arrs = [x if isinstance(x, Arr) else np_array(I, x) for x in items]
@@ -946,6 +1030,44 @@ def np_hstack(I, seq):
     if all(len(a.shape) == 1 for a in arrs):
         return np_concatenate(I, VList(arrs))
     raise Unsupported('hstack of N-D arrays')
+
+
+def np_ndim(I, x):
+    if isinstance(x, Arr):
+        return len(x.shape)
+    if isinstance(x, (VList, tuple, list)):
+        return len(np_array(I, x).shape)
+    if isinstance(x, VObj):
+        m = I.find_method(x, '_np_array')
+        if m is not None:
+            return np_ndim(I, I.call(m, [], {}))
+    return 0
+
+
+def np_column_stack(I, seq):
+    """1-D arrays of equal length n -> (n, k) array whose columns are the inputs"""
+    arrs = [x if isinstance(x, Arr) else np_array(I, x) for x in I.iterate(seq)]
+    if not all(len(a.shape) == 1 for a in arrs):
+        raise Unsupported('column_stack of N-D arrays')
+    n = arrs[0].shape[0]
+    Bm = _B()
+    for a in arrs[1:]:
+        r = Bm.equal(I, n, a.shape[0])
+        if r is False:
+            I.throw('ValueError', 'all the input array dimensions except for the concatenation axis must match exactly')
+        if r is not True:
+            I.ctx.oblige('numpy.column_stack: equal lengths', zbool(r))
+    fns = [a.fn for a in arrs]
+
+    def fn(idx):
+        j = idx[1]
+        if isinstance(j, Sym):
+            r = fns[-1]((idx[0],))
+            for t in range(len(fns) - 2, -1, -1):
+                r = Bm.ite(I, mk(zint(j) == t, 'bool'), fns[t]((idx[0],)), r)
+            return r
+        return fns[j]((idx[0],))
+    return Arr((n, len(arrs)), fn, arrs[0].dtype)
 
 
 def np_copy(I, a):
@@ -1002,7 +1124,7 @@ def make(I):
         where=F('where', lambda I, c, a, b: _where(I, c, a, b)),
         clip=F('clip', lambda I, x, lo, hi: I.builtins['min'].fn(I, I.builtins['max'].fn(I, x, lo), hi)),
         square=F('square', lift1('square', lambda I, e: I.binop('*', e, e))),
-        ndim=F('ndim', lambda I, x: 0 if not isinstance(x, Arr) else len(x.shape)),
+        ndim=F('ndim', np_ndim), mgrid=_Grid(True), ogrid=_Grid(False), meshgrid=F('meshgrid', np_meshgrid), column_stack=F('column_stack', np_column_stack),
         shape=F('shape', lambda I, x: () if not isinstance(x, Arr) else tuple(x.shape)),
         size=F('size', lambda I, x: 1 if not isinstance(x, Arr) else arr_getattr(I, x, 'size')),
         transpose=F('transpose', lambda I, a: transpose(I, a)),
